@@ -1,10 +1,12 @@
 package props
 
 import (
+	"context"
 	"fmt"
 	"math/rand"
 	"net/url"
 	"strings"
+	"sync"
 	"time"
 
 	"github.com/zitadel/saml/pkg/provider"
@@ -288,6 +290,88 @@ func c07Uptime(r *core.Run, idx int, rng *rand.Rand) {
 	r.Max("uptime_inflated_KiB_served_by_one_provider", int64(total>>10))
 }
 
+// c07AbortedNeighbour: two requests of one service provider overlap on one provider; the client of the first goes
+// away while its service-provider lookup is pending (its context is cancelled, the lookup fails with the context's
+// error). The second, conformant request has nothing to do with that and must be accepted.
+func c07AbortedNeighbour(r *core.Run, idx int, rng *rand.Rand) {
+	const wl = "aborted_neighbour"
+	e := env.Static(env.Opts{})
+	sp := stdSP(rng.Intn(4))
+	sp.AuthnRequestsSigned = ""
+	mustRegister(e.W, sp, "appA")
+	kind := []string{"authn", "logout", "query"}[idx%3]
+	u := randUser(rng, fmt.Sprintf("U_MK%dx", idx), false)
+	e.W.AddUser(u)
+	tagA, tagB := fmt.Sprintf("abortA%d", idx), fmt.Sprintf("abortB%d", idx)
+	ctxA, cancelA := context.WithCancel(context.Background())
+	defer cancelA()
+	aInside, bInside := make(chan struct{}), make(chan struct{})
+	var onceA, onceB sync.Once
+	e.W.Before = func(_ context.Context, tag, op string, occ int) {
+		if op != "GetEntityByID" {
+			return
+		}
+		switch tag {
+		case tagA:
+			onceA.Do(func() { close(aInside) })
+			// the lookup of A is pending until B has reached the storage as well (or clearly never will: B may be
+			// waiting for A's lookup instead of making its own), then A's client goes away
+			select {
+			case <-bInside:
+			case <-time.After(40 * time.Millisecond):
+			}
+			cancelA()
+		case tagB:
+			onceB.Do(func() { close(bInside) })
+		}
+	}
+	build := func(tag string, ctx context.Context) env.Req {
+		switch kind {
+		case "authn":
+			a := validAuthn(rng, sp)
+			binding := []string{"redirect", "post"}[rng.Intn(2)]
+			x := a.XML(rng)
+			if binding == "post" {
+				return (env.Req{Method: "POST", Path: env.PathSSO, Body: spsim.FormBody("SAMLRequest", spsim.B64([]byte(x)), "RelayState", "MKrelay"), Tag: tag, Ctx: ctx})
+			}
+			return (env.Req{Path: env.PathSSO, Query: "SAMLRequest=" + url.QueryEscape(spsim.DeflateB64(x)) + "&RelayState=MKrelay", Tag: tag, Ctx: ctx})
+		case "logout":
+			l := conformantLogout(rng, sp)
+			return (env.Req{Method: "POST", Path: env.PathSLO, Body: spsim.FormBody("SAMLRequest", spsim.B64([]byte(l.XML(rng)))), Tag: tag, Ctx: ctx})
+		default:
+			q := conformantQuery(rng, sp, u.Username)
+			return (env.Req{Method: "POST", Path: env.PathAttr, Body: q.XML(rng), CT: "text/xml", Tag: tag, Ctx: ctx})
+		}
+	}
+	var callA *env.Call
+	done := make(chan struct{})
+	reqA, reqB := build(tagA, ctxA), build(tagB, nil) // both drawn before anything runs: the generator is not shared
+	go func() { callA = e.Do(reqA); close(done) }()
+	select {
+	case <-aInside:
+	case <-done:
+	}
+	callB := e.Do(reqB)
+	<-done
+	class := "aborted_neighbour|" + kind
+	r.Eval(fmt.Sprintf("%s|%d", class, idx))
+	r.Count("aborted_neighbour_pairs", 1)
+	desc := map[string]any{"kind": kind, "first_request": callA.Describe()}
+	if callB.Panic != "" || callA.Panic != "" {
+		r.Violate(core.Violation{Clause: "panic", Class: class, Reason: callA.Panic + callB.Panic, Workload: wl, Index: idx, Case: desc, Observed: callB.Describe()})
+		return
+	}
+	ok := callB.Accepted()
+	if kind != "authn" {
+		ok = callB.D.Success()
+	}
+	if !ok {
+		r.Violate(core.Violation{Clause: "conformant_request_rejected_because_a_neighbour_was_aborted", Class: class, Reason: fmt.Sprintf("a conformant %s was not accepted (status %d %s) while another request of the same service provider was being aborted", kind, callB.D.Status, clipS(string(callB.D.Body), 160)), Workload: wl, Index: idx, Case: desc, Observed: callB.Describe()})
+		return
+	}
+	r.Count("accepted_beside_aborted_neighbour", 1)
+}
+
 // c07EndpointQuery: the single-sign-on location the IdP advertises has a query of its own.
 func c07EndpointQuery(r *core.Run, idx int, rng *rand.Rand) {
 	const wl = "advertised_location_with_query"
@@ -351,6 +435,8 @@ func init() {
 			r.Require("logout_success", 50)
 			r.Require("query_success", 50)
 			r.Require("multi_host_accepted", 500)
+			r.Require("multi_host_concurrent_accepted", 500)
+			r.Require("accepted_beside_aborted_neighbour", 50)
 			r.Require("endpoint_with_query_requests", 100)
 			r.Require("uptime_accepted", 100)
 			return []core.Workload{
@@ -362,6 +448,10 @@ func init() {
 				{Name: "multi_host_sequences", N: c.Pick(150, 1500), Fn: func(r *core.Run, idx int, rng *rand.Rand) {
 					multiHostSequence(r, "multi_host_sequences", idx, rng, false)
 				}},
+				{Name: "multi_host_concurrent", N: c.Pick(40, 400), Fn: func(r *core.Run, idx int, rng *rand.Rand) {
+					multiHostConcurrent(r, "multi_host_concurrent", idx, rng, false)
+				}},
+				{Name: "aborted_neighbour", N: c.Pick(60, 600), Fn: c07AbortedNeighbour},
 				{Name: "advertised_location_with_query", N: c.Pick(120, 1200), Fn: c07EndpointQuery},
 			}
 		},
